@@ -5,6 +5,7 @@ use std::collections::{HashMap, HashSet};
 use std::net::{SocketAddr, IpAddr, Ipv4Addr, Ipv6Addr, SocketAddrV4, SocketAddrV6};
 use std::time::Duration;
 use std::ops::{Add, Sub};
+use std::cmp::Ordering;
 use vstd::std_specs::cmp::{PartialOrdSpec, PartialEqSpec, PartialEqSpecImpl};
 use vstd::std_specs::iter::IteratorSpec;
 
